@@ -1,94 +1,47 @@
 /-
   Props/C14_cancel.lean — property C14, part 2b: async read / write on io_epoll_context with
-  cancellation and with syscalls that fail with a real errno (model Proto/EpollOp.lean).
-
-  `*_safe`: what the code guarantees also here — every operation completes at most once and, by the
-  end, exactly once; a value is the byte count of the successful syscall; done only after a stop
-  request; nothing waits forever.  INSTANCE theorems (kernel-evaluated closure, all schedules).
-
-  `*_VIOLATES_*`: the three places where the code as it is breaks C14, each proved on the model
-  with an explicit witness schedule or for all schedules of the instance; each is reproduced on the
-  real code by the scenario of the same name in harness/rt/scn_c14.cpp.
+  cancellation (model Proto/EpollOp.lean, which follows the code WITH the cancellation repair of
+  tools/checks/c14_repair.patch): cancel while parked + reuse of the descriptor, stop requested
+  before start + reuse, cancel of a parked write.
+  INSTANCE theorems (kernel-evaluated closure, all schedules): `good` = `safe ∧ clean ∧ errTrue`,
+  in particular: completes exactly once (done), the operation state is not touched after the
+  completion (`complete_with_done` waits for `request_stop` to leave the stop callback), no epoll
+  registration survives the operation, the kernel never reports a completed operation, the later
+  read on the same descriptor gets exactly the bytes written later.
+  (Before the repair the same instances had reachable states with `bad = 1` / `bad = 2` and final
+  states with a registration left; the harness scenarios of the same names still watch for that.)
 -/
-import UnifexModel.Proto.EpollOp
+import UnifexModel.Props.C14_ops
 
 namespace Unifex.Props.C14
 open Unifex.Core Unifex.Proto.EpollOp
 
-theorem rd_cancel_parked_safe : ∀ s, Reach (sys cfgRdCancelParked) s → safe cfgRdCancelParked s = true :=
-  safe_of_check _ { coded with M := 331 } 400 _ (by decide +kernel)
-
-theorem wr_cancel_parked_safe : ∀ s, Reach (sys cfgWrCancelParked) s → safe cfgWrCancelParked s = true :=
-  safe_of_check _ { coded with M := 251, W := 192 } 400 _ (by decide +kernel)
-
-/-- existence of a reachable state, from an explicit schedule checked by the kernel -/
-theorem witness (cfg : Config) (cs : List Nat) (good : St → Bool)
-    (h : (match runChoices (sys cfg) (sys cfg).init cs with | some (_, s) => good s | none => false) = true) :
-    ∃ s, Reach (sys cfg) s ∧ good s = true := by
-  cases hr : runChoices (sys cfg) (sys cfg).init cs with
-  | none => simp [hr] at h
-  | some p =>
-    obtain ⟨ls, s⟩ := p
-    simp only [hr] at h
-    exact ⟨s, runChoices_reach _ _ _ _ _ Reach.init hr, h⟩
-
-/-- VIOLATION (no touch after completion).  `complete_with_done` does not destruct
-    `stopCallback_`: there is a schedule of `rd_cancel_parked` in which the operation has completed
-    with done and has been destroyed by its receiver when `inplace_stop_source::request_stop`
-    (still running on the cancelling thread) stores `callbackCompleted_` into the callback object
-    that lives inside the operation state. -/
-theorem cancel_parked_VIOLATES_no_touch_after_completion :
-    ∃ s, Reach (sys cfgRdCancelParked) s ∧
-      ((getOp s 0).outcome == 2 && (getOp s 0).freed && s.bad == 1) = true :=
-  witness cfgRdCancelParked [0, 0, 0, 0, 0, 0, 0, 0, 0, 0, 0, 0, 0, 0, 1, 1, 1, 1, 1, 0, 0, 0, 0, 2] _
-    (by decide +kernel)
-
-/-- VIOLATION (a cancelled operation leaves no registration), ALL schedules of
-    `rd_cancel_before_start`: the stop callback runs inline inside `stopCallback_.construct`, before
-    `epoll_ctl(ADD)`; once the operation has completed (with done) the kernel still holds the
-    registration pointing to it — until it delivers an event for the dead operation (`bad = 2`).
-    Hence no final state is clean. -/
-theorem cancel_before_start_VIOLATES_no_registration_left :
-    ∀ s, Reach (sys cfgRdCancelBeforeStart) s →
-      (((getOp s 0).completions == 0 || s.reg == 1 || s.bad == 2) &&
-       (!final cfgRdCancelBeforeStart s || !clean cfgRdCancelBeforeStart s) &&
-       safe cfgRdCancelBeforeStart s) = true :=
+theorem rd_cancel_parked_ok : ∀ s, Reach (sys cfgRdCancelParked) s → good cfgRdCancelParked s = true :=
   safe_of_check _ { coded with M := 251 } 400 _ (by decide +kernel)
 
-/-- … and a complete run in which the kernel does deliver the event for the dead operation. -/
-theorem cancel_before_start_VIOLATES_no_stale_event :
-    ∃ s, Reach (sys cfgRdCancelBeforeStart) s ∧ (final cfgRdCancelBeforeStart s && s.bad == 2) = true :=
-  witness cfgRdCancelBeforeStart
-    [0, 0, 0, 0, 0, 0, 0, 0, 0, 0, 0, 0, 0, 0, 0, 0, 0, 0, 0, 0, 0, 0, 0, 0, 0, 0, 0, 0, 0, 0, 1, 1, 0, 0, 0, 0, 0, 0,
-     0, 0, 0, 0, 0, 0, 0] _ (by decide +kernel)
+theorem rd_cancel_before_start_ok : ∀ s, Reach (sys cfgRdCancelBeforeStart) s → good cfgRdCancelBeforeStart s = true :=
+  safe_of_check _ { coded with M := 251 } 400 _ (by decide +kernel)
 
-/-- VIOLATION (with the OS error), ALL schedules of `rd_error_start`: the first readv fails with
-    EIO (errno 5); `-1 == -EPERM` sends the operation down the "would block" path; it never
-    completes with an error — it stays parked until it is cancelled. -/
-theorem error_start_VIOLATES_os_error :
-    ∀ s, Reach (sys cfgRdErrorStart) s →
-      ((getOp s 0).outcome != 3 && safe cfgRdErrorStart s) = true :=
+theorem wr_cancel_parked_ok : ∀ s, Reach (sys cfgWrCancelParked) s → good cfgWrCancelParked s = true :=
   safe_of_check _ { coded with M := 251, W := 192 } 400 _ (by decide +kernel)
 
-/-- … the parked state: the syscall failed with errno 5, everything scheduled before the fence has
-    run, the loop is blocked in epoll_wait, the operation has not completed. -/
-theorem error_start_VIOLATES_is_parked :
-    ∃ s, Reach (sys cfgRdErrorStart) s ∧
-      ((getOp s 0).sysErr == 5 && s.fences == 1 && (getOp s 0).completions == 0 && s.reg == 1 && s.lpc == 3) = true :=
-  witness cfgRdErrorStart [0, 0, 0, 0, 0, 0, 0, 0, 0, 0, 0, 0, 1, 1] _ (by decide +kernel)
+/-- non-vacuity: the cancelled read completes with done, the later read gets the 4 bytes. -/
+theorem rd_cancel_parked_completes : ∃ s, Reach (sys cfgRdCancelParked) s ∧
+    (final cfgRdCancelParked s && (getOp s 0).outcome == 2 && (getOp s 1).outcome == 1 && (getOp s 1).val == 4) = true :=
+  witness cfgRdCancelParked
+    [0, 0, 0, 0, 0, 0, 0, 0, 0, 0, 0, 0, 0, 0, 1, 1, 1, 1, 1, 0, 0, 0, 0, 0, 0, 0, 0, 0, 0, 1, 0, 0, 0, 0, 0, 0, 0, 0,
+     0, 0, 0, 0, 0] _ (by decide +kernel)
 
-/-- VIOLATION (with the OS error), ALL schedules of `rd_error_retry`: the readv after readiness
-    fails with EIO (errno 5); whenever the operation has completed it has completed with
-    error 1 (EPERM = `-int(-1)`), never with errno 5.  (`safe` and `clean` hold.) -/
-theorem error_retry_VIOLATES_os_error :
-    ∀ s, Reach (sys cfgRdErrorRetry) s →
-      (((getOp s 0).completions == 0 ||
-          ((getOp s 0).outcome == 3 && (getOp s 0).val == 1 && (getOp s 0).sysErr == 5)) &&
-       safe cfgRdErrorRetry s && clean cfgRdErrorRetry s) = true :=
-  safe_of_check _ { coded with M := 127, W := 192 } 400 _ (by decide +kernel)
+/-- non-vacuity: stop before start — the callback runs inline in `stopCallback_.construct`
+    (`cb = 5`), the operation completes with done, no registration is left, the later read works. -/
+theorem rd_cancel_before_start_completes : ∃ s, Reach (sys cfgRdCancelBeforeStart) s ∧
+    (final cfgRdCancelBeforeStart s && (getOp s 0).outcome == 2 && (getOp s 0).cb == 5 &&
+     (getOp s 1).val == 4 && s.reg == 0) = true :=
+  witness cfgRdCancelBeforeStart (List.replicate 44 0) _ (by decide +kernel)
 
-theorem error_retry_VIOLATES_completes :
-    ∃ s, Reach (sys cfgRdErrorRetry) s ∧ ((getOp s 0).completions == 1 && !errTrue s) = true :=
-  witness cfgRdErrorRetry (List.replicate 24 0) _ (by decide +kernel)
+theorem wr_cancel_parked_completes : ∃ s, Reach (sys cfgWrCancelParked) s ∧
+    (final cfgWrCancelParked s && (getOp s 0).outcome == 2) = true :=
+  witness cfgWrCancelParked
+    [0, 0, 0, 0, 0, 0, 0, 0, 0, 0, 0, 0, 0, 0, 1, 1, 1, 1, 1, 0, 0, 0, 0, 0, 0, 0, 0, 0, 0, 0, 0, 0] _ (by decide +kernel)
 
 end Unifex.Props.C14
